@@ -325,10 +325,19 @@ fn mutate(reps: &mut [ARep], r: usize, m: u32, peer: usize, causal: bool) {
     let (val_s, field, elem) = (pick(&["a", "b", "", "c"], m), pick(&["f", "g", "h"], m), pick(&["x", "y", "z"], m));
     let mut removed = None;
     match v.crdt_type() {
-        "lww" if m % 4 == 3 => v.delete(clock),
-        "lww" => v.set(sds(val_s), clock, if causal { Some(vc) } else { None }),
-        "hash" if m % 4 == 3 => v.hash_delete(field, clock),
-        "hash" => v.hash_set(field.into(), sds(val_s), clock),
+        // (whatever these mutators return is not used: a changed return type must not stop the harness from building)
+        "lww" if m % 4 == 3 => {
+            let _ = v.delete(clock);
+        }
+        "lww" => {
+            let _ = v.set(sds(val_s), clock, if causal { Some(vc) } else { None });
+        }
+        "hash" if m % 4 == 3 => {
+            let _ = v.hash_delete(field, clock);
+        }
+        "hash" => {
+            let _ = v.hash_set(field.into(), sds(val_s), clock);
+        }
         "gcounter" => {
             let g = v.crdt_mut().as_gcounter_mut().unwrap();
             if m % 2 == 0 { g.increment(rid) } else { g.increment_by(rid, (m as u64 / 2) % 4) }
